@@ -464,6 +464,13 @@ theorem dask_key_name_is_key (n : String) (pure : Bool) (fn tok uuid : String) :
 theorem callName_default (pure : Bool) (fn tok uuid : String) :
     callName none pure fn tok uuid = fn ++ "-" ++ (if pure then tok else uuid) := rfl
 
+/-- **purity rules**: operators (`delayed(op, pure=True)`, nothing passed at the call) are pure whatever the configuration;
+    a method call (`call_function` without `pure`) is pure only if asked — by `pure=True` at the call or by the
+    configuration — and impure when `pure=False` is passed even under `delayed_pure=True` -/
+theorem purity_rules (cfg : Bool) (p : Bool) :
+    effPure none (some true) cfg = true ∧ effPure none none cfg = cfg ∧ effPure (some p) none cfg = p ∧
+    effPure (some p) (some (!p)) cfg = p := ⟨rfl, rfl, rfl, rfl⟩
+
 section
 variable {V : Type} [Inhabited V] (S : XSem V)
 
